@@ -55,7 +55,10 @@ type seqOp struct {
 // asked type. Read literally, the statement gives such an answer the smallest TTL of those records. The resolver
 // treats it like a response without any record (cached 300 s); the 300 s rule for empty answers is an accepted
 // leniency of this check, so the default extends it to this class (either outcome accepted up to 300 s). With true,
-// the class is judged by the smallest TTL of the records present (signature stale:no-data-answer-...).
+// such an answer must not be served once it is as old as the smallest TTL of the records present (signature
+// stale:no-data-answer-served-beyond-cname-ttl / -extra-record-ttl); asking again earlier stays acceptable.
+// On /repo at d04a852 the strict reading is violated: x CNAME y (TTL 2), y without AAAA => the empty AAAA answer of x
+// is served from cache for 300 s.
 const strictNoData = false
 
 type cname struct {
@@ -477,6 +480,10 @@ func (h *seqHist) decide(en *entry, now int64) (class, reason string) {
 		return lenient, "no-data-answer-under-300s"
 	case en.Empty && !strictNoData:
 		return mustFetch, "empty-answer-300s-old"
+	case en.Empty && now-en.At >= int64(minTTL(en.TTLs)): // strict: never older than the smallest TTL of the records present
+		return mustFetch, "no-data-answer-past-record-ttl"
+	case en.Empty: // strict: how long within that TTL a negative answer is kept is not demanded
+		return lenient, "no-data-answer-within-record-ttl"
 	}
 	tau, age := int64(minTTL(en.TTLs)), now-en.At
 	switch {
@@ -497,12 +504,12 @@ func (h *seqHist) decide(en *entry, now int64) (class, reason string) {
 // staleSig: signature of "no upstream query although the statement demands one".
 func staleSig(reason string, en *entry, now int64) string {
 	age := now - en.At
+	if reason == "no-data-answer-past-record-ttl" {
+		return "stale:no-data-answer-served-beyond-" + forcedBy(en, age) + "-ttl"
+	}
 	if which := forcedBy(en, age); which != "" && (reason == "ttl0-mixed" || reason == "expired" || reason == "expired-exactly") {
 		// the returned records alone are still within their TTLs: the answer is too old only because of a record
 		// of the response that the lookup does not return
-		if en.Empty {
-			return "stale:no-data-answer-served-beyond-" + which + "-ttl"
-		}
 		return "stale:" + which + "-ttl-ignored"
 	}
 	switch reason {
